@@ -30,7 +30,7 @@ RULE = ("scenario = world layout (11 layouts: output beside / nested in / equal 
         "elsewhere x history of 1-3 runs over {generate, init, build-script} with source switches (commands / other commands / "
         "events / no commands), zod/none/invalid mode, visualisation, force, configuration from flags / tauri.conf.json / "
         "typegen.json / defaults; plus a name sweep (every listed name alone and all together, as file and as directory, on "
-        "both entries; several candidate configuration files at once (./tauri.conf.json, src-tauri/tauri.conf.json, ../tauri.conf.json each absent / without typegen section / with a section naming its own output directory / malformed: all 64 layouts, 4 runs each, foreign reserved-named files in every directory any candidate names); foreign entries carrying the names of the tool's transient / probe / auxiliary artefacts (.write_test, <name>.tmp in both spellings, .typecache.tmp, lock / swap / backup names: 23 names) in every shape (empty file, non-empty file, directory, symbolic link to a file / to a directory / dangling, read-only empty / non-empty) in, below and beside the output directory, on all four entries across 5-run histories with a regenerating run; besides the bytes the lstat facts (mode, mtime, inode, size) of every non-directory are compared before / after and a touched foreign file counts as changed; the configured output directory through every configuration source (-o flag, -c file, tauri.conf.json read by the CLI, tauri.conf.json and typegen.json read by the build script, the library entry generate_from_config) x 45 directory names a layer might normalise (backslash, trailing dot / space, dot-dot through existing directories, ./ prefix, doubled and trailing slashes, ~, $HOME, percent escapes, non-ASCII, glob and shell characters, names equal to reserved file names) with foreign reserved-named files in the directories a normaliser would pick; foreign files whose CONTENT resembles generated output (header at the start / after an offset / in the middle / truncated / CRLF / BOM, whole and partial copies of generated files) across 4-run histories with a regenerating run on all entries; build-script and CLI runs from working directories one and two levels below the detected project root (marker tauri.conf.json or src-tauri + typegen.json above the crate), relative and absolute output paths, foreign reserved-named files in every directory a relative output path could be anchored at; init / generate with crate directories of arbitrary names and several crates in one workspace with their own configurations and pre-populated output directories, -g / -v / -o combinations (the run's output directory for init is the -g argument); generations and failing runs (a directory under the name of each written file) with TMPDIR, HOME and XDG_* pointed at watched directories, TMPDIR on the sandbox's file system and on a second one (/dev/shm); every systematic near-miss of every reserved name - stem.x.ts, stem.ts.x, x.stem.ts, stem-x.ts, stemx.ts, xstem.ts, case and extension variants, .tmp siblings of the written files, affix words alone and with other extensions - all together as files, as directories, nested and beside the output directory, on both entries, 3 runs each) and a malformed stream (blocked or missing paths, broken JSON, directories under reserved names). "
+        "both entries; several candidate configuration files at once (./tauri.conf.json, src-tauri/tauri.conf.json, ../tauri.conf.json each absent / without typegen section / with a section naming its own output directory / malformed: all 64 layouts, 4 runs each, foreign reserved-named files in every directory any candidate names); foreign entries carrying the names of the tool's transient / probe / auxiliary artefacts (.write_test, <name>.tmp in both spellings, .typecache.tmp, lock / swap / backup names: 23 names) in every shape (empty file, non-empty file, directory, symbolic link to a file / to a directory / dangling, read-only empty / non-empty) in, below and beside the output directory, on all four entries across 5-run histories with a regenerating run; besides the bytes the lstat facts (mode, mtime, inode, size) of every non-directory are compared before / after and a touched foreign file counts as changed; output and project paths spelled with dot-dot components behind a symbolic link to a directory with a different parent (link/../gen, ./link/../gen, link/./../gen, link/sub/../../gen, link/.., gen/../link/../out, absolute, doubled slash; relative / absolute / chained / nested / far links, a link into the project, plus controls: sibling link, link/gen, the link itself, dot-dot inside the target, no link) through -o, a -c file, tauri.conf.json read by the CLI, init -g and init -o, the build script's tauri.conf.json / typegen.json and the library entry, with foreign reserved-named files in the directory a lexical folding names and in the directory the OS reaches - the run's output directory is the OS-resolved one and the whole sandbox is judged; the configured output directory through every configuration source (-o flag, -c file, tauri.conf.json read by the CLI, tauri.conf.json and typegen.json read by the build script, the library entry generate_from_config) x 45 directory names a layer might normalise (backslash, trailing dot / space, dot-dot through existing directories, ./ prefix, doubled and trailing slashes, ~, $HOME, percent escapes, non-ASCII, glob and shell characters, names equal to reserved file names) with foreign reserved-named files in the directories a normaliser would pick; foreign files whose CONTENT resembles generated output (header at the start / after an offset / in the middle / truncated / CRLF / BOM, whole and partial copies of generated files) across 4-run histories with a regenerating run on all entries; build-script and CLI runs from working directories one and two levels below the detected project root (marker tauri.conf.json or src-tauri + typegen.json above the crate), relative and absolute output paths, foreign reserved-named files in every directory a relative output path could be anchored at; init / generate with crate directories of arbitrary names and several crates in one workspace with their own configurations and pre-populated output directories, -g / -v / -o combinations (the run's output directory for init is the -g argument); generations and failing runs (a directory under the name of each written file) with TMPDIR, HOME and XDG_* pointed at watched directories, TMPDIR on the sandbox's file system and on a second one (/dev/shm); every systematic near-miss of every reserved name - stem.x.ts, stem.ts.x, x.stem.ts, stem-x.ts, stemx.ts, xstem.ts, case and extension variants, .tmp siblings of the written files, affix words alone and with other extensions - all together as files, as directories, nested and beside the output directory, on both entries, 3 runs each) and a malformed stream (blocked or missing paths, broken JSON, directories under reserved names). "
         "Non-trivial = at least one run changed the tree or ran against foreign files; distinct = distinct scenarios")
 TRUSTED = [
     "tools/props/c16_world.py: sandbox construction, snapshot/diff, python re-computation of the effective configuration (mirrors run_generate / load_configuration / detect_project) and of init's target path",
@@ -38,7 +38,7 @@ TRUSTED = [
     "init's new configuration text is taken from the observation (its content is C19's subject); only its path is checked here",
 ]
 ASSUMPTIONS = [
-    "no symbolic links, no dot-dot components, no permission faults, no concurrent writer in the output directory",
+    "no permission faults, no concurrent writer in the output directory; symbolic links only as opaque foreign entries and as directory links on the way to the output / project directory (stream symlinks: the run's directories are what the OS resolves the configured strings to); no dangling link and no link under a reserved name on that way",
     "single-source-file projects in the sandboxes, so the serialised cache record is a deterministic function of sources and configuration (several files: C13/C14)",
 ]
 
@@ -218,6 +218,7 @@ def run(rep):
         ("corpus", corpus_cases()),
         ("sweep", W.sweep_scenarios() + W.below_root_scenarios(None, 0) + W.workspace_init_scenarios(None, 0)),
         ("outdir", W.outdir_scenarios() if thorough else W.outdir_scenarios()[::1]),
+        ("symlinks", W.symlink_dotdot_scenarios(full=thorough)),
         ("candidates", W.candidate_scenarios() + (W.candidate_scenarios(rng, 200) if thorough else [])),
         ("artefacts", W.artefact_scenarios() + (W.artefact_scenarios(rng, 60) if thorough else W.artefact_scenarios(rng, 8))),
         ("content", W.content_scenarios() + (W.content_scenarios(rng, 40) if thorough else [])),
